@@ -5,6 +5,7 @@
    sto_out / sto_in are what the receiving / supplying end holds. *)
 From Coq Require Import QArith Qminmax List Bool Arith.
 From WSI Require Import Vqip Pow Tank Arc QTank Run TankLaws ArcLaws QTankLaws QueueLaws Refuted.
+From WSI Require Net NetLaws.
 Import ListNotations.
 Open Scope Q_scope.
 
@@ -70,3 +71,15 @@ Example C04_tiny_push_handed_back :
   q_send_push _ nbport q s w_tiny false 0 = (q, s, w_tiny).
 Proof. exact tiny_push_is_handed_back. Qed.
 Print Assumptions C04_tiny_push_handed_back.
+
+(* ---- the composition: whole networks (coq/Net.v, NetLaws.v), water ----
+   Any request that returns, at any recursion depth of the re-entrant protocol, changed the balance
+   of exactly one interior node - the one it was made at (the source of a push over an arc, the
+   destination of a pull) - and by exactly the volume its reply reports (offer minus returned
+   remainder, resp. the amount handed over); every other node of the network is where it was. *)
+Theorem C04_network_request_moves_what_it_reports : forall maxiter fuel s r s' rep,
+  Net.exec maxiter fuel s r = Some (s', rep) -> NetLaws.wf s ->
+  NetLaws.shape s' = NetLaws.shape s /\ (NetLaws.is_check r = true -> s' = s) /\
+  forall n, NetLaws.interior s n -> NetLaws.balance s' n == NetLaws.balance s n + NetLaws.effect s r rep n.
+Proof. exact NetLaws.ledger_exec. Qed.
+Print Assumptions C04_network_request_moves_what_it_reports.
